@@ -75,6 +75,8 @@ def empties : List Cat → Nat
 /-- A category as ETG2010 allows it: 16-bit type, even body shorter than 2^17 bytes. -/
 def Cat.WF (c : Cat) : Prop := c.type < 65536 ∧ c.body.length % 2 = 0 ∧ c.body.length / 2 < 65536
 
+instance (c : Cat) : Decidable c.WF := by unfold Cat.WF; infer_instance
+
 /-- Sync manager as described in the image. -/
 structure SmDesc where
   start : Nat
@@ -97,5 +99,107 @@ def encStrings (ss : List (List Nat)) : List Nat :=
 
 /-- The fixed header fields ethercrab reads: identity at word 8, mailbox at word 0x18, size at word 0x3E. -/
 def Header (hdr : List Nat) : Prop := hdr.length = 128
+
+/-! ### TxPDO / RxPDO categories (ETG2010 Table 14 "Structure Category TXPDO and RXPDO for each PDO") -/
+
+/-- One PDO entry as described in the image: object index, sub-index, index of its name in the Strings
+    category, data type, bit length, flags. -/
+structure PdoEntryDesc where
+  index : Nat
+  subIndex : Nat
+  nameIdx : Nat
+  dataType : Nat
+  bitLen : Nat
+  flags : Nat
+  deriving Repr
+
+/-- ETG2010 Table 14, entry part (8 bytes): index (word), sub-index, name string index, data type, bit length,
+    flags (word). -/
+def encPdoEntry (e : PdoEntryDesc) : List Nat :=
+  le16 e.index ++ [e.subIndex, e.nameIdx, e.dataType, e.bitLen] ++ le16 e.flags
+
+def PdoEntryDesc.WF (e : PdoEntryDesc) : Prop :=
+  e.index < 65536 ∧ e.subIndex < 256 ∧ e.nameIdx < 256 ∧ e.dataType < 256 ∧ e.bitLen < 256 ∧ e.flags < 65536
+
+instance (e : PdoEntryDesc) : Decidable e.WF := by unfold PdoEntryDesc.WF; infer_instance
+
+/-- One PDO as described in the image: PDO index, sync manager, DC synchronisation byte, index of its name in
+    the Strings category, flags, and its entries (their number is the `nEntry` byte of the encoding). -/
+structure PdoDesc where
+  index : Nat
+  sm : Nat
+  dcSync : Nat
+  nameIdx : Nat
+  flags : Nat
+  entries : List PdoEntryDesc
+  deriving Repr
+
+/-- ETG2010 Table 14, PDO part (8 bytes): index (word), number of entries, sync manager, synchronisation, name
+    string index, flags (word). -/
+def encPdoHdr (d : PdoDesc) : List Nat :=
+  le16 d.index ++ [d.entries.length, d.sm, d.dcSync, d.nameIdx] ++ le16 d.flags
+
+/-- A PDO: its 8-byte header followed by 8 bytes per entry. -/
+def encPdo (d : PdoDesc) : List Nat := encPdoHdr d ++ d.entries.flatMap encPdoEntry
+
+/-- Every field fits its width (the entry count is one byte: at most 255 entries) and every entry is
+    well-formed. -/
+def PdoDesc.WF (d : PdoDesc) : Prop :=
+  d.index < 65536 ∧ d.entries.length < 256 ∧ d.sm < 256 ∧ d.dcSync < 256 ∧ d.nameIdx < 256 ∧ d.flags < 65536 ∧
+  ∀ e ∈ d.entries, e.WF
+
+instance (d : PdoDesc) : Decidable d.WF := by unfold PdoDesc.WF; infer_instance
+
+/-- What a PDO carries once read: the sum of its entries' bit lengths. -/
+def PdoDesc.bitLen (d : PdoDesc) : Nat := (d.entries.map fun e => e.bitLen).sum
+
+/-! ### General category (ETG2010 Table 7 / ETG1000.6 Table 21) -/
+
+/-- The General category as described in the image. `foe`/`eoe` are the raw enable bytes (non-zero = enabled),
+    `ebusCurrent` the `i16` as its two's complement `u16`, `port0..3` the four 4-bit physical port kinds,
+    `tail` whatever follows the 18 bytes ethercrab reads (ETG2010: 14 reserved bytes). -/
+structure GeneralDesc where
+  groupIdx : Nat
+  imageIdx : Nat
+  orderIdx : Nat
+  nameIdx : Nat
+  reserved4 : Nat
+  coeDetails : Nat
+  foe : Nat
+  eoe : Nat
+  soeChannels : Nat
+  ds402Channels : Nat
+  sysmanClass : Nat
+  flags : Nat
+  ebusCurrent : Nat
+  port0 : Nat
+  port1 : Nat
+  port2 : Nat
+  port3 : Nat
+  physAddr : Nat
+  tail : List Nat
+  deriving Repr
+
+/-- Byte 0 group, 1 image, 2 order, 3 name string index, 4 reserved, 5 CoE details, 6 FoE details, 7 EoE details,
+    8 SoE channels, 9 DS402 channels, 10 SysmanClass, 11 flags, 12..13 EBus current, 14..15 physical ports (four
+    nibbles, port 0 lowest), 16..17 physical memory address, then the reserved tail. -/
+def encGeneral (g : GeneralDesc) : List Nat :=
+  [g.groupIdx, g.imageIdx, g.orderIdx, g.nameIdx, g.reserved4, g.coeDetails, g.foe, g.eoe,
+   g.soeChannels, g.ds402Channels, g.sysmanClass, g.flags]
+  ++ le16 g.ebusCurrent ++ [g.port0 + 16 * g.port1, g.port2 + 16 * g.port3] ++ le16 g.physAddr ++ g.tail
+
+/-- Every field fits its width; only the six defined CoE-detail bits and the five defined flag bits are used;
+    the category is a whole number of words. -/
+def GeneralDesc.WF (g : GeneralDesc) : Prop :=
+  g.groupIdx < 256 ∧ g.imageIdx < 256 ∧ g.orderIdx < 256 ∧ g.nameIdx < 256 ∧ g.reserved4 < 256 ∧
+  g.coeDetails ≤ 63 ∧ g.foe < 256 ∧ g.eoe < 256 ∧ g.soeChannels < 256 ∧ g.ds402Channels < 256 ∧
+  g.sysmanClass < 256 ∧ g.flags ≤ 31 ∧ g.ebusCurrent < 65536 ∧
+  g.port0 < 16 ∧ g.port1 < 16 ∧ g.port2 < 16 ∧ g.port3 < 16 ∧ g.physAddr < 65536 ∧ g.tail.length % 2 = 0
+
+instance (g : GeneralDesc) : Decidable g.WF := by unfold GeneralDesc.WF; infer_instance
+
+/-- Physical port kind as ETG1000.6 Table 21 defines it: 0 unused, 1 MII, 2 reserved, 3 EBUS, 4 fast hot
+    connect; the undefined values 5..15 are treated as unused. -/
+def portKind (v : Nat) : Nat := if v ≤ 4 then v else 0
 
 end Ec.EepromSpec
